@@ -593,7 +593,7 @@ func genBig(g *hx.Gen) {
 	sizes := []int{15, 16, 17, 31, 32, 33, 63, 64, 65, 70}
 	top := []int{127, 128, 129, 130}
 	if !g.Thorough() {
-		top = []int{top[r.Intn(2)], 129 + r.Intn(2)}
+		top = []int{top[r.Intn(4)]}
 	}
 	fam := func(f []int, cy bool, icb, ipb int) {
 		h, _ := familyGraph(f)
@@ -621,7 +621,7 @@ func genBig(g *hx.Gen) {
 		emitBig(g, h, f, cy, icb, ipb, r.Chance(2, 3), g.Pick(2, 4), r.Chance(1, 3))
 	}
 	for _, n := range append(sizes, top...) {
-		pick := func(k int) bool { return g.Thorough() || n > 70 || r.Intn(3) == k%3 }
+		pick := func(k int) bool { return g.Thorough() || r.Intn(3) == k%3 }
 		if pick(0) {
 			fam([]int{1, n}, true, -1, -1)
 		}
@@ -638,7 +638,7 @@ func genBig(g *hx.Gen) {
 			fam([]int{10, n}, false, -1, 2)
 		}
 		if pick(2) {
-			fam([]int{11, 6 + n%3, n - 6 - n%3}, true, 3, 2)
+			fam([]int{11, 6 + n%3, n - 6 - n%3}, false, 3, 2) // K6..K8: too many cycles for NumberOfCycles
 		}
 		if pick(0) {
 			l := 3 + n%4
@@ -675,7 +675,7 @@ func genBig(g *hx.Gen) {
 		fam([]int{9, 7}, false, 4, 2)
 		fam([]int{5, 10, 13}, false, 4, 2)
 		fam([]int{5, 2, 65}, false, 4, 2)
-	} else {
+	} else if r.Chance(1, 2) {
 		fam([]int{5, 10, 13}, false, 3, 2)
 	}
 	g.Note("large graphs: sizes 15..17, 31..33, 63..65, 70, 127..130 (families with construction-known answers, sparse random graphs), all representations incl. decoder outputs, edit histories, views over edited bases")
